@@ -40,7 +40,12 @@ def fsc_specs(draw, m, k, max_nodes=3):
 def eval_cases(draw, tier="quick"):
     spec = draw(pomdp_specs(max_states=4, max_actions=3 if tier == "thorough" else 2, max_obs=3 if tier == "thorough" else 2,
                             absorbing_kinds=("n", "n", "n", "n", "abs", "imp")))
-    return {"pomdp": spec, "fsc": draw(fsc_specs(spec["m"], spec["k"]))}
+    f = draw(fsc_specs(spec["m"], spec["k"]))
+    if draw(st.integers(0, 3)) == 0:
+        # node strategy that does not depend on the action: may be passed as a 3-D array p(n'|n,o)
+        f["obs"] = [[[f["obs"][n][0][o] for o in range(spec["k"])] for _a in range(spec["m"])] for n in range(len(f["act"]))]
+        f["three_d"] = True
+    return {"pomdp": spec, "fsc": f}
 
 
 def norm(x):
@@ -87,8 +92,12 @@ def prop_evaluator(case, ctx):
         ctx.event("unused_observation_dropped")
     act, obs, init, act_m, obs_m, al, ol = controller_arrays(case, pomdp, view)
     # observations that never occur are not in msdm's list: drop them from the reference too (they carry no mass)
+    obs_arg = obs_m
+    if case["fsc"].get("three_d"):
+        obs_arg = obs_m[:, 0, :, :]  # identical for every action by construction
+        ctx.event("three_d_node_strategy")
     res = ctx.call("C09.evaluator.raises", stochastic_fsc_policy_evaluation_exact, pomdp, torch.tensor(act_m),
-                   torch.tensor(obs_m), fsc_initial_state=torch.tensor(init))
+                   torch.tensor(obs_arg), fsc_initial_state=torch.tensor(init))
     V = res.state_controller_value.numpy()
     ref = reference_value(arr, act, obs)
     scale = 1 + float(np.max(np.abs(ref)))
